@@ -131,12 +131,18 @@ def bitsAux : Nat → Nat → List Nat
   | 0, _ => []
   | fuel + 1, n => if n = 0 then [] else (n % 18446744073709551616) :: bitsAux fuel (n / 18446744073709551616)
 def bits (x : Int) : List Nat := bitsAux (x.natAbs + 1) x.natAbs
-/-- `z.SetString(s, 10)`: an optional sign followed by decimal digits. -/
+/-- `z.SetString(s, 10)`: an optional sign (`+`/`-`) followed by one or more decimal digits, nothing else. -/
+def decDigits (cs : List Char) : Option Nat :=
+  if cs.isEmpty then none else
+  cs.foldl (fun acc c => match acc with
+    | none => none
+    | some n => if c.isDigit then some (n * 10 + (c.toNat - 48)) else none) (some 0)
 def setString (s : String) (base : Int) : Int × Bool :=
   if base ≠ 10 then (0, false) else
-  match (if s.startsWith "+" then (s.drop 1).toString else s).toInt? with
-  | some v => (v, true)
-  | none => (0, false)
+  match s.toList with
+  | '-' :: cs => match decDigits cs with | some n => (-(n : Int), true) | none => (0, false)
+  | '+' :: cs => match decDigits cs with | some n => ((n : Int), true) | none => (0, false)
+  | cs => match decDigits cs with | some n => ((n : Int), true) | none => (0, false)
 /-- `z.ModInverse(g, n)` for prime `n` (`g` is reduced first; `g ≡ 0` has no inverse: `nil`, `z` unchanged). -/
 def modInverse (g n : Int) : Option Int :=
   let r := imod g n.toNat
